@@ -554,6 +554,17 @@ def check_evaluator(ctx: Ctx):
     ctx.ob("C19-O2", "R4 SIGN-UNIT", init, "Evaluator.sign is +1 for minimize, -1 for maximize", "self.sign = 1 if minimize else -1" in ti and "self.evals = 0" in ti, "", node=init.node)
     ctx.ob("C19-O2", "R4 SIGN-UNIT", call, "evaluation returns sign * f(x) and counts exactly one call per evaluation", "self.evals += 1" in tc and "return self.sign * self.objective_fn(sol)" in tc and tc.count("self.evals") == 1, "", node=call.node)
     ctx.ob("C19-O2", "R4 SIGN-UNIT", tu, "to_user multiplies by the same sign (an involution) and does not evaluate", "return internal_obj * self.sign" in tt and "objective_fn" not in tt and "evals" not in tt, "", node=tu.node)
+    # one count, one call: every return of __call__ hands back a value the user's function was just called for - no path
+    # answers from memory - and the evaluator keeps no state besides the function, the sign and the counter
+    rets = [n for n in own_nodes(call.node) if isinstance(n, ast.Return)]
+    direct = [n for n in rets if n.value is not None and any(isinstance(x, ast.Call) and ast.unparse(x.func) == "self.objective_fn" for x in ast.walk(n.value))]
+    ccfg = cfg_of(call.node)
+    calls_ = [ccfg.stmt_node_containing(x) for x in own_nodes(call.node) if isinstance(x, ast.Call) and ast.unparse(x.func) == "self.objective_fn"]
+    every = bool(rets) and all(n in direct or any(c_.id == ccfg.node_of(n).id or ccfg.dominates(c_, ccfg.node_of(n)) for c_ in calls_) for n in rets)
+    slots = [n for n in ast.walk(m.tree) if isinstance(n, ast.ClassDef) and n.name == "Evaluator" for n in n.body if isinstance(n, ast.Assign) and ast.unparse(n.targets[0]) == "__slots__"]
+    fields = sorted(e.value for e in slots[0].value.elts) if slots and isinstance(slots[0].value, (ast.Tuple, ast.List)) else None
+    stored = sorted({n.attr for f_ in (init, call, tu) for n in own_nodes(f_.node) if isinstance(n, ast.Attribute) and isinstance(n.ctx, ast.Store) and isinstance(n.value, ast.Name) and n.value.id == "self"})
+    ctx.ob("C19-O4", "R7 EVALUATOR-EXCLUSIVE", call, "every evaluation calls the user's function (no return of __call__ answers from memory), and the evaluator's state is function, sign and counter", every and fields == ["evals", "objective_fn", "sign"] and stored == ["evals", "objective_fn", "sign"], f"returns without a call: {[ast.unparse(n)[:40] for n in rets if n not in direct][:2]}; slots {fields}; fields written {stored}: a remembered value is counted as an evaluation that never happened (`evaluations` no longer equals the number of objective calls), and a non-deterministic or stateful objective is answered with a stale value", node=call.node)
     # the only writers of .evals are __init__ and __call__
     writers = [q for q, f in m.funcs.items() if q.startswith("Evaluator.") and any(isinstance(n, (ast.Assign, ast.AugAssign)) and "self.evals" in ast.unparse(n.targets[0] if isinstance(n, ast.Assign) else n.target) for n in own_nodes(f.node))]
     ctx.ob("C19-O4", "R27 WRITE-OWNERSHIP", call, "the evaluation counter is written only by __init__ and __call__", sorted(writers) == ["Evaluator.__call__", "Evaluator.__init__"], f"{writers}", node=call.node)
@@ -880,7 +891,15 @@ def _v_nm_select_then_shrink(tree):
     stop[0].body.insert(sel[0] + 1, M.stmts("_shrink(simplex, values, sigma, evaluate)")[0])
 
 
+def _v_evaluator_memo(tree):
+    g = M.find_func(tree, "Evaluator.__call__")
+    g.body = M.stmts("self.evals += 1\ntry:\n    key = tuple(sol)\n    if key in self._seen:\n        return self._seen[key]\nexcept TypeError:\n    return self.sign * self.objective_fn(sol)\nvalue = self._seen[key] = self.sign * self.objective_fn(sol)\nreturn value")
+    i = M.find_func(tree, "Evaluator.__init__")
+    i.body.extend(M.stmts("self._seen = {}"))
+
+
 VARIANTS = [
+    M.Variant("Evaluator answers repeated flat solutions from a memo and still counts them (seed C19-U)", HP, _v_evaluator_memo, "C19-O4"),
     M.Variant("nelder_mead stopped by the callback returns simplex[0] (original defect, ledger row 61)", NM, _v_nm_callback_returns_first, "C19-O3"),
     M.Variant("nelder_mead shrinks once more between choosing the vertex and returning it", NM, _v_nm_select_then_shrink, "C19-O3"),
     M.Variant("nelder_mead re-sorts only when the worst vertex moved up (seed C19-O)", NM, _v_nm_lazy_sort, "C19-O3"),
